@@ -22,6 +22,7 @@ func init() {
 		&Rule{ID: "PG-LEXER", Doc: "the lexer rules and parser options are the specified ones (token classes, their order, quoting, lookahead)", Run: rulePGLexer, Min: 20},
 		&Rule{ID: "PG-POLICY", Doc: "'allow if' yields an allow policy with the allow queries, 'deny if' a deny policy with the deny queries, in both parser entry points", Run: rulePGPolicy, Min: 4},
 		&Rule{ID: "PG-FRESHEXPR", Doc: "every parsed expression is converted into its own freshly allocated op list (no scratch buffer shared between expressions)", Run: rulePGFreshExpr, Min: 2},
+		&Rule{ID: "PG-LISTS", Doc: "term lists (predicate terms, set elements) are comma separated: the grammar tag is one optional group 'element (\",\" element)*', not a repetition of it", Run: rulePGLists, Min: 2},
 		&Rule{ID: "PG-PURE", Doc: "no parse function writes the shared parser object (a parser value can be used from several goroutines and carries no state from one parse to the next)", Run: rulePGPure, Min: 6},
 		&Rule{ID: "PG-PARSE", Doc: "every parse method converts the syntax tree parsed from its own text parameter in that very call (no tree from a cache or memo)", Run: rulePGParse, Min: 12},
 		&Rule{ID: "PR-DATE", Doc: "dates print as RFC 3339 text of time.Unix(seconds, 0) with no intermediate arithmetic on the seconds (the parser reads RFC 3339 back into Unix seconds)", Run: rulePRDate, Min: 3},
@@ -1454,5 +1455,92 @@ func rulePGParse(p *Prog, r *Reporter) {
 	}
 	if n < 6 {
 		r.Bad("?", "parser.parser", "parse methods", fmt.Sprintf("only %d parse methods found (six entry points expected)", n))
+	}
+}
+
+func rulePGLists(p *Prog, r *Reporter) {
+	globalP = p
+	pk := p.Pkgs["parser"]
+	if pk == nil {
+		r.Dunno("?", "parser", "package", "not loaded")
+		return
+	}
+	sc := pk.Types.Scope()
+	n := 0
+	// only grammar nodes reachable from the six entry point types
+	reach := map[string]bool{}
+	var visit func(t types.Type)
+	visit = func(t types.Type) {
+		for {
+			switch u := t.(type) {
+			case *types.Pointer:
+				t = u.Elem()
+				continue
+			case *types.Slice:
+				t = u.Elem()
+				continue
+			}
+			break
+		}
+		nt, ok := t.(*types.Named)
+		if !ok || nt.Obj().Pkg() != pk.Types || reach[nt.Obj().Name()] {
+			return
+		}
+		reach[nt.Obj().Name()] = true
+		if st, isS := nt.Underlying().(*types.Struct); isS {
+			for i := 0; i < st.NumFields(); i++ {
+				visit(st.Field(i).Type())
+			}
+		}
+	}
+	for _, root := range []string{"Predicate", "Rule", "Check", "Policy", "Block", "Authorizer"} {
+		if o := sc.Lookup(root); o != nil {
+			visit(o.Type())
+		}
+	}
+	for _, nm := range sc.Names() {
+		tn, ok := sc.Lookup(nm).(*types.TypeName)
+		if !ok || !reach[nm] {
+			continue
+		}
+		st, ok := tn.Type().Underlying().(*types.Struct)
+		if !ok {
+			continue
+		}
+		for i := 0; i < st.NumFields(); i++ {
+			tag := st.Tag(i)
+			// a separated list: ( X ("," X)* ) followed by a repetition operator
+			idx := strings.Index(tag, `("," `)
+			if idx < 0 {
+				continue
+			}
+			n++
+			// find the group that encloses the list and the operator that follows it
+			depth := 0
+			end := -1
+			for j := idx; j < len(tag); j++ {
+				switch tag[j] {
+				case '(':
+					depth++
+				case ')':
+					depth--
+					if depth < 0 && end < 0 {
+						end = j
+					}
+				}
+			}
+			op := byte(0)
+			if end >= 0 && end+1 < len(tag) {
+				op = tag[end+1]
+			}
+			construct := nm + "." + st.Field(i).Name() + " list"
+			pos := p.Pos(st.Field(i).Pos())
+			// op after the enclosing group: '?' (optional list), none (mandatory list), '+' is tolerated only when the
+			// group cannot start right after itself without a separator - which a plain repetition allows
+			r.Check(op != '*' && op != '+', pos, "parser."+nm, construct, "the list group is not itself repeated", "the separated list is wrapped in a repetition ("+string(op)+"): elements that merely follow each other without a comma are accepted, so a malformed literal (odd hex digits, a bad date suffix) is read as two terms instead of being reported")
+		}
+	}
+	if n == 0 {
+		r.Bad("?", "parser", "separated lists", "no comma separated list found in the grammar tags")
 	}
 }
